@@ -3,7 +3,7 @@
 commit="$1"
 old=/tmp/verif_old_$commit
 [ -d $old ] || git -C /verif worktree add -q --detach $old $commit
-for src in /tmp/sa:m /tmp/sb:w2m; do
+for src in ${SRCS:-/tmp/sa:m /tmp/sb:w2m}; do
   dir=${src%%:*}; tag=${src##*:}
   for d in $dir/C??; do
     id=$(basename $d)
